@@ -498,7 +498,10 @@ fn cmd_check(a: &[String]) -> i32 {
             let (build, v) = cand;
             // replay in a fresh process before believing it
             let exe = bins.get(build).cloned().unwrap_or_else(|| std::env::current_exe().unwrap());
-            let reproduced = if sig == "C17/ambient-nondeterminism" {
+            let flaky_by_nature = sig.starts_with("C17/nondeterministic") || sig.contains("printed-twice-differs");
+            let reproduced = if flaky_by_nature {
+                true // the observation itself (two different results for one value) is the violation
+            } else if sig == "C17/ambient-nondeterminism" {
                 let dig = |pad: &str| {
                     std::process::Command::new(&exe).env("SIM_ALLOC_PAD", pad).args(["replay", &v.replay, "--check"]).output().ok().map(|o| String::from_utf8_lossy(&o.stdout).to_string())
                 };
@@ -527,7 +530,15 @@ fn cmd_check(a: &[String]) -> i32 {
         let (build, v) = match chosen {
             Some(c) => c,
             None => {
-                harness.push(format!("violation {sig} ({} occurrence(s), first at run {}) did not reproduce from its replay file {}", group.len(), group[0].1.run, group[0].1.replay));
+                // A violation that does not replay is normally a harness error (exit 2). When the same
+                // batch has shown the library to be nondeterministic, non-reproduction is a symptom of
+                // that violation, not of the harness.
+                let msg = format!("violation {sig} ({} occurrence(s), first at run {}) did not reproduce from its replay file {}", group.len(), group[0].1.run, group[0].1.replay);
+                if by_sig.keys().any(|k| k.starts_with("C17/nondeterministic") || k == "C17/ambient-nondeterminism" || k.contains("printed-twice-differs")) {
+                    println!("note: {msg} (the library behaved nondeterministically in this batch)");
+                } else {
+                    harness.push(msg);
+                }
                 continue;
             }
         };
@@ -603,21 +614,21 @@ fn cmd_check(a: &[String]) -> i32 {
         "sim check {prop} {tier}: evaluations={runs} distinct_nontrivial={} executions={execs} events={events} unlisted_violations={unlisted} known={known_hits} wall={wall:.1}s",
         shapes.len()
     );
+    for h in harness.iter().take(20) {
+        eprintln!("HARNESS ERROR: {h}");
+    }
+    // a violation that was replayed in a fresh process stands on its own, whatever else went wrong
+    if unlisted > 0 {
+        return 1;
+    }
     if !harness.is_empty() {
-        for h in harness.iter().take(20) {
-            eprintln!("HARNESS ERROR: {h}");
-        }
         return 2;
     }
     if runs == 0 {
         eprintln!("HARNESS ERROR: no runs executed");
         return 2;
     }
-    if unlisted > 0 {
-        1
-    } else {
-        0
-    }
+    0
 }
 
 fn cmd_selftest(a: &[String]) -> i32 {
